@@ -13,6 +13,16 @@ Theorem C07_roundtrip : forall m rest, FieldsOk m ->
   parse_frame (encode_msg m ++ rest) = PFrame m (len (encode_msg m)).
 Proof. exact roundtrip. Qed.
 
+(* (b') hence the layout is uniquely decodable: no encoding is a prefix of another, and two
+   sequences of messages with the same bytes are the same sequence *)
+Theorem C07_prefix_free : forall m1 m2 r1 r2, FieldsOk m1 -> FieldsOk m2 ->
+  encode_msg m1 ++ r1 = encode_msg m2 ++ r2 -> m1 = m2 /\ r1 = r2.
+Proof. exact encode_prefix_free. Qed.
+
+Theorem C07_stream_injective : forall ms1 ms2, Forall FieldsOk ms1 -> Forall FieldsOk ms2 ->
+  concat (map encode_msg ms1) = concat (map encode_msg ms2) -> ms1 = ms2.
+Proof. exact encode_stream_injective. Qed.
+
 (* (c) bitfields: piece i <-> the (i mod 8)-th most significant bit of byte i/8,
    in both directions, for every piece count *)
 Theorem C07_bitfield_pack : forall bits i, (i < length bits)%nat ->
@@ -45,3 +55,5 @@ Print Assumptions C07_roundtrip.
 Print Assumptions C07_bitfield_pack.
 Print Assumptions C07_bitfield_unpack.
 Print Assumptions C07_bitfield_roundtrip.
+Print Assumptions C07_prefix_free.
+Print Assumptions C07_stream_injective.
